@@ -452,6 +452,21 @@ func (cs *clientStream) doHttpCall(transport http.RoundTripper, req *http.Reques
 		cs.ready.Done()
 	}
 
+	// The transport reads the request body from a pipe that only yields data
+	// when the caller sends a message, and it cannot abandon a blocked read
+	// on its own. So when the context ends, close the pipe: otherwise a
+	// RoundTrip that is still waiting for the reply (and with it this
+	// goroutine, and any caller of Header) would stay blocked for good.
+	callDone := make(chan struct{})
+	defer close(callDone)
+	go func() {
+		select {
+		case <-cs.ctx.Done():
+			readPipe.CloseWithError(statusFromContextError(cs.ctx.Err()))
+		case <-callDone:
+		}
+	}()
+
 	reply, err := transport.RoundTrip(req.WithContext(cs.ctx))
 	if err != nil {
 		if err == io.EOF {
